@@ -107,6 +107,10 @@ class Prop(core.Prop):
                     yield dict(group, miss=mi, mask=mk, comments=0, indep_units=True, source=src, lodvals=True)
                     yield dict(group, miss=mi, mask=mk, comments=0, indep_units=True, source=src, lodvals=True,
                                lod=0, lodwhich='both')
+        # fractional sampling times late in the day
+        for mk in ('none', 'one'):
+            for src in ('built', 'text'):
+                yield dict(group, miss=0, mask=mk, comments=0, indep_units=True, source=src, fractime=True)
         # 32-bit dependent variables whose missing code has no exact 32-bit representation
         for mk in MASKS:
             for code in range(len(F4CODES)):
@@ -166,6 +170,10 @@ class Prop(core.Prop):
             for w in (('LLOD', 'ULOD') if case['lodwhich'] == 'both' else (case['lodwhich'],)):
                 comments += [(w + '_FLAG', '-8888' if w == 'LLOD' else '-7777'), (w + '_VALUE', val)]
         time = np.arange(nrec, dtype='d') * 60. + 36000.
+        if case.get('fractime'):
+            # 10 Hz samples late in the day (seconds of day): fractional, each within 1e-5 (relative) of a whole number
+            time = 54000.1 + 0.1 * np.arange(nrec, dtype='d')
+        self._time = time
         if case['source'] == 'text':
             rows = []
             for i in range(nrec):
@@ -223,6 +231,11 @@ class Prop(core.Prop):
         if names != want:
             vs.append(viol('names-order', sig, '%s: %r expected %r' % (tag, names, want), **scope))
             return vs
+        tgot = np.ma.filled(np.ma.asarray(g.variables['Start_UTC'][...], 'd'), np.nan)
+        tbad = [(a, b) for a, b in zip(tgot, self._time) if not sig7(a, b)]
+        if tgot.shape != self._time.shape or tbad:
+            vs.append(viol('independent-variable', sig, '%s: Start_UTC %s expected %s' % (
+                tag, tgot.tolist()[:3], self._time.tolist()[:3]), **scope))
         for j in range(ndep):
             v = g.variables[NAMES[j]]
             arr = v[...]
@@ -257,7 +270,7 @@ class Prop(core.Prop):
                      indep_units=case['indep_units'], ncomments=bin(case['comments']).count('1'), miss=miss,
                      percode=bool(case.get('percode')), scale_attr=bool(case.get('scale_attr')),
                      lod=LODS[case['lod']] if 'lod' in case else '', f4=bool('f4code' in case),
-                     lodvals=bool(case.get('lodvals')))
+                     lodvals=bool(case.get('lodvals')), fractime=bool(case.get('fractime')))
         vs = []
         ntrans = 0
         try:
